@@ -153,7 +153,7 @@ pub fn check_idem(text: &str, ev: &mut Evidence, origin: &str) -> Result<(), Vio
 
 pub fn profiles() -> Vec<Profile> {
     vec![
-        Profile { c11_shapes: true, ..Profile::full() },
+        Profile::text(),
         Profile { depth: 4, max_rules: 8, c11_shapes: true, repair: false, ..Profile::full() },
         Profile { pratt: true, nodeops: true, parts: true, skips: true, max_rules: 4, ..Profile::base("pratt") },
     ]
